@@ -85,13 +85,14 @@ def main():
                         for pk in pkgs:
                             rel = "./" + pk.split("github.com/prometheus/prometheus/", 1)[-1]
                             # up to 3 attempts: a test broken by the patch fails every time, a load flake does not
+                            pf = list(fails)
                             for attempt in range(3):
-                                rc2, out2 = sh("go test -count=1 -timeout 60m -run '^(%s)$' %s" % ("|".join(fails), rel), cwd=wt, env=env, timeout=4000)
+                                rc2, out2 = sh("go test -count=1 -timeout 60m -run '^(%s)$' %s" % ("|".join(pf), rel), cwd=wt, env=env, timeout=4000)
                                 if rc2 == 0:
                                     break
                                 still = sorted(set(_re.findall(r"^--- FAIL: (\w+)", out2, flags=_re.M)))
                                 if still:
-                                    fails = [f for f in fails if f in still] or fails
+                                    pf = [f for f in pf if f in still] or pf
                             res.setdefault("existing_tests_rerun_attempts", {})[pk] = attempt + 1
                             ok = ok and rc2 == 0
                             if rc2 != 0:
